@@ -566,6 +566,7 @@ func (s *c02k3Scn) live(q, i int) bool {
 }
 
 var c02k3LogName = [2]string{"our log", "their log"}
+var c02Party = [2]lntypes.ChannelParty{lntypes.Local, lntypes.Remote}
 
 // c02k3CheckLog: the restored log holds exactly the live updates.
 func c02k3CheckLog(s *c02k3Scn, q int, got []*paymentDescriptor) {
@@ -697,6 +698,10 @@ func c02k3CheckAll(w *c02k3World) {
 					vReach("dropped-unsigned")
 				}
 				continue
+			}
+			if c02k3IsRm(e.kind) {
+				vAssert(lc2.updateLogs.GetForParty(c02Party[1-q]).htlcHasModification(e.pd.ParentIndex),
+					"k3: the HTLC a restored settle/fail removes is marked as having a removal")
 			}
 			switch {
 			case q == 1 && e.kind != c02KAdd:
